@@ -92,6 +92,10 @@ class Ctx:
         self.driver = Driver()
         self.t0 = time.time()
         self.deadline = None
+        # change-triggered deepening (see ./check): further search rounds with other seeds
+        self.escalated = False
+        self.round = 0
+        self.changed_source = []
 
     @property
     def quick(self):
